@@ -150,6 +150,8 @@ type Stats struct {
 	Fns          map[string]int
 	Intrinsics   map[string]int
 	Samples      []string
+	Witnesses    []Violation // passing paths with a model of their inputs: replayed natively as a cross-check of the encoding
+	okSeen       int
 	Unsupported  map[string]int
 	MaxSteps     int64
 	Steps        int64
@@ -200,11 +202,20 @@ func (s *Stats) Merge(o *Stats) {
 			s.Samples = s.Samples[:8]
 		}
 	}
+	if len(s.Witnesses) < MaxWitnesses {
+		s.Witnesses = append(s.Witnesses, o.Witnesses...)
+		if len(s.Witnesses) > MaxWitnesses {
+			s.Witnesses = s.Witnesses[:MaxWitnesses]
+		}
+	}
 	if o.MaxSteps > s.MaxSteps {
 		s.MaxSteps = o.MaxSteps
 	}
 	s.Steps += o.Steps
 }
+
+// MaxWitnesses: passing paths kept per harness (per worker before merging).
+const MaxWitnesses = 12
 
 func NewEngine(p *Program, solverKind string, timeoutMs int) *Engine {
 	e := &Engine{P: p, tt: NewTermTable(), Budget: 5_000_000, MaxDepth: 400, MaxAlloc: 1 << 20, MaxForks: 100000}
@@ -852,6 +863,34 @@ func (e *Engine) recordViolation(id, msg string, m Model) {
 	})
 }
 
+// diverseModel: a model of the path condition in which the symbolic inputs are
+// non-zero and pairwise different where the path allows it (a witness of all
+// zeros says little); nil when the solver does not give one quickly.
+func (e *Engine) diverseModel() Model {
+	var vars []*Term
+	for _, a := range e.answers {
+		if a.Var != "" && a.Bits >= 8 && len(vars) < 8 {
+			vars = append(vars, e.tt.Var(a.Var, BV(a.Bits)))
+		}
+	}
+	if len(vars) == 0 {
+		return nil
+	}
+	c := e.tt.Bool(true)
+	for i, v := range vars {
+		c = e.tt.And(c, e.tt.Not(e.tt.Eq(v, e.tt.BVConst(int(v.S), 0))))
+		for _, w := range vars[:i] {
+			if w.S == v.S {
+				c = e.tt.And(c, e.tt.Not(e.tt.Eq(v, w)))
+			}
+		}
+	}
+	if res, m := e.check(c, true); res == "sat" {
+		return m
+	}
+	return nil
+}
+
 func (e *Engine) note(s string) {
 	e.notes = append(e.notes, s)
 }
@@ -942,6 +981,19 @@ func (e *Engine) RunPath(fn *ssa.Function, prefix []Decision) (res PathResult, a
 	}
 	if len(e.Stats.Samples) < 4 && res.Status == "ok" {
 		e.Stats.Samples = append(e.Stats.Samples, e.sample())
+	}
+	if res.Status == "ok" && len(e.violations) == 0 && !e.cutUnknown && !e.schedExplore && !e.selectExplore {
+		// a spread of passing paths (the 1st, 2nd, 4th, 8th ... completed one)
+		e.Stats.okSeen++
+		n := e.Stats.okSeen
+		if n&(n-1) == 0 && len(e.Stats.Witnesses) < MaxWitnesses {
+			before := len(e.violations)
+			e.recordViolation("", "", e.diverseModel())
+			if len(e.violations) > before {
+				e.Stats.Witnesses = append(e.Stats.Witnesses, e.violations[before])
+				e.violations = e.violations[:before]
+			}
+		}
 	}
 	return res, e.newAlts
 }
